@@ -11,6 +11,7 @@ import Uquic.Proofs.StreamsIncomingRun
 import Uquic.Proofs.StreamsOutgoingRun
 import Uquic.Proofs.StreamsMap
 import Uquic.Proofs.StreamsMapLift
+import Uquic.Proofs.StreamsGlue
 import Uquic.Generated.Streams
 
 namespace Uquic.Props.C15
@@ -366,10 +367,87 @@ theorem map_outgoing_fifo (pers : Persp) (nb nu : Int) (ops : List MapOp) (hw : 
 
 example : ((runMap (Map.new .server 1 1) [.recvFrame 0, .recvFrame 4]).inc .bidi).streams.length = 1 := by decide
 
+/-! ## the glue between the connection and its streams map -/
+
+/-- **first_frame_error_wins.**  `Conn.handleFrames` (frame loop with `handleErr` / `skipHandling`, traced
+    or not): the frames of a packet are handled in order up to and including the first one whose
+    handler fails, no later frame is handled, and the result is that frame's error — in particular a
+    STREAM_LIMIT_ERROR / STREAM_STATE_ERROR raised by the streams map is what the connection is closed
+    with, whatever frames (ACK, PING, …) follow in the same packet, with tracing on or off.  Depends on
+    the regenerated fact that every dispatch branch has its `if skipHandling { continue }` guard. -/
+theorem first_frame_error_wins (m : Map) (trace : Bool) (fs : List PFrame) :
+    m.handleFrames trace fs = firstErrorSpec handleOne m fs :=
+  frameLoop_eq_spec handleOne PFrame.guarded trace all_guarded fs m
+
+/-- the same for any handler and any state -/
+theorem first_frame_error_wins_generic {σ F E} (h : σ → F → σ × Option E) (guard : F → Bool)
+    (hg : ∀ f, guard f = true) (trace : Bool) (s : σ) (fs : List F) :
+    handleFramesG h guard trace s fs = firstErrorSpec h s fs :=
+  frameLoop_eq_spec h guard trace hg fs s
+
+/-- … and the guards are needed: without the guard, a traced packet [failing frame, harmless frame]
+    returns no error at all. -/
+theorem first_frame_error_needs_guards :
+    handleFramesG (fun (s : Nat) (ok : Bool) => (s + 1, if ok then none else some 7)) (fun _ => false) true 0 [false, true]
+      = (2, none) ∧
+    firstErrorSpec (fun (s : Nat) (ok : Bool) => (s + 1, if ok then none else some 7)) 0 [false, true] = (1, some 7) := by
+  decide
+
+example : ((Map.new .server 1 1).handleFrames true [.stream 8, .ack true, .ping]).2 = some .limit := by decide
+example : ((Map.new .client 1 1).handleFrames false [.ping, .stop 3, .stream 1]).2 = some .stateInvalidSend := by decide
+
+/-- **covering_config_is_pointwise_max.**  `configCoveringAdvertised` raises each incoming stream
+    limit of the (populated) Config to the transport parameter advertised for the same stream type
+    (fields regenerated from the source). -/
+theorem covering_config_is_pointwise_max (conf p : Limits) :
+    coverConfig conf p = ⟨max conf.bidi p.bidi, max conf.uni p.uni⟩ := coverConfig_eq conf p
+
+/-- full statement: for every constructor, Config and spec, the limit the streams map enforces is the
+    one the peer was told -/
+def enforced_limit_equals_advertised_full : Prop :=
+  ∀ (k : ConnKind) (conf spec : Limits), enforcedLimits k conf spec = advertisedLimits k conf spec
+
+/-- **enforced_limit_equals_advertised_partial.**  It holds for servers and plain clients, and for a
+    spec-driven client whenever the populated Config does not exceed the spec's parameters; in general
+    the enforced limit is `max(populated Config, advertised)` per stream type, never below the
+    advertised one. -/
+theorem enforced_limit_equals_advertised_partial (k : ConnKind) (conf spec : Limits) :
+    (k ≠ .uclient → enforcedLimits k conf spec = advertisedLimits k conf spec) ∧
+    (k = .uclient →
+      (enforcedLimits k conf spec).bidi = max (populate conf).bidi (advertisedLimits k conf spec).bidi ∧
+      (enforcedLimits k conf spec).uni = max (populate conf).uni (advertisedLimits k conf spec).uni) ∧
+    (k = .uclient → (populate conf).bidi ≤ (specParams spec).bidi → (populate conf).uni ≤ (specParams spec).uni →
+      enforcedLimits k conf spec = advertisedLimits k conf spec) := by
+  refine ⟨?_, ?_, ?_⟩
+  · intro hk; cases k <;> first | rfl | exact absurd rfl hk
+  · intro hk; subst hk
+    simp only [enforcedLimits, advertisedLimits, coverConfig_eq]; exact ⟨trivial, trivial⟩
+  · intro hk h1 h2; subst hk
+    simp only [enforcedLimits, advertisedLimits, coverConfig_eq]
+    have e1 : max (populate conf).bidi (specParams spec).bidi = (specParams spec).bidi := by omega
+    have e2 : max (populate conf).uni (specParams spec).uni = (specParams spec).uni := by omega
+    rw [e1, e2]
+
+/-- The full statement is false on the unchanged tree (finding `C15-config-above-spec`): a client
+    driven by a spec that advertises 16 streams per type (the Firefox parrots) with a default Config
+    enforces 100. -/
+theorem enforced_limit_equals_advertised_witness : ¬ enforced_limit_equals_advertised_full := by
+  intro h
+  have := h .uclient ⟨0, 0⟩ ⟨16, 16⟩
+  revert this; decide
+
 /-! ## shape of the Go code the atomic-step modelling relies on -/
 
 /-- Every sub-map method that the model treats as one atomic step takes the map's mutex in its
     first statement (regenerated from /repo by gofacts; a method that stops doing so breaks this). -/
 theorem atomic_steps_lock_at_entry : Uquic.Gen.Streams.allLockAtEntry = true := by decide
+
+/-- Every dispatch branch of `Conn.handleFrames` (STREAM, ACK, DATAGRAM, the rest) skips handling once
+    an earlier frame of the packet failed; `configCoveringAdvertised` derives each stream limit from
+    the parameter of the same stream type (both regenerated from /repo). -/
+theorem glue_shape : Uquic.Gen.Streams.allSkipGuards = true ∧
+    Uquic.Gen.Streams.coverBidiSources = ["MaxBidiStreamNum"] ∧
+    Uquic.Gen.Streams.coverUniSources = ["MaxUniStreamNum"] ∧ Uquic.Gen.Streams.coverKeepsConfig = true := by
+  decide
 
 end Uquic.Props.C15
